@@ -6702,6 +6702,40 @@ impl RelationalEngine {
         errors
     }
 
+    /// Re-reads rows that were matched by a scan and have just been locked.
+    ///
+    /// Between the scan and the lock acquisition another transaction may have
+    /// changed or deleted a matched row and released its lock again. Once the
+    /// locks are held the rows are stable, so the current values are fetched
+    /// and the condition is evaluated again: rows that are gone or no longer
+    /// match are dropped (their locks stay with the transaction until it ends),
+    /// the others carry their current values (the correct undo image and the
+    /// correct old index keys).
+    fn recheck_locked_rows(
+        &self,
+        table: &str,
+        schema: &Schema,
+        condition: &Condition,
+        rows: Vec<(SlabRowId, Row, Vec<SlabColumnValue>)>,
+    ) -> Result<Vec<(SlabRowId, Row, Vec<SlabColumnValue>)>> {
+        let max_depth = self.config.max_condition_depth;
+        let mut current = Vec::with_capacity(rows.len());
+        for (slab_row_id, _, _) in rows {
+            let Some(slab_row) = self
+                .slab()
+                .get(table, slab_row_id)
+                .map_err(|e| RelationalError::StorageError(e.to_string()))?
+            else {
+                continue;
+            };
+            let row = Self::slab_row_to_engine_row(schema, slab_row_id, slab_row.clone());
+            if condition.evaluate_with_depth(&row, 0, max_depth)? {
+                current.push((slab_row_id, row, slab_row));
+            }
+        }
+        Ok(current)
+    }
+
     /// Insert a row within a transaction.
     ///
     /// # Errors
@@ -6918,6 +6952,10 @@ impl RelationalEngine {
                 })?;
         }
 
+        // The rows are locked now: work on their current values, not on what the
+        // scan saw before the locks were held.
+        let matching_rows = self.recheck_locked_rows(table, &schema, &condition, matching_rows)?;
+
 
         // Convert updates to slab format
         let slab_updates: Vec<(String, SlabColumnValue)> = updates
@@ -7039,6 +7077,10 @@ impl RelationalEngine {
                     row_id: info.row_id,
                 })?;
         }
+
+        // The rows are locked now: work on their current values, not on what the
+        // scan saw before the locks were held.
+        let to_delete = self.recheck_locked_rows(table, &schema, &condition, to_delete)?;
 
 
         for (slab_row_id, row, old_slab_values) in &to_delete {
